@@ -62,7 +62,7 @@ PROPS["C12"] = {
 
 PROPS["C18"] = {
     "lean": ["OlricModel.Props.C18"],
-    "streams": [("alias", (30, 240), (300, 600)), ("kv", (8, 300), (60, 400)), ("cluster", (6, 150), (40, 400))],
+    "streams": [("alias", (30, 240), (300, 600)), ("kv", (8, 300), (60, 400)), ("cluster", (6, 150), (40, 400)), ("asyncbuf", (3, 30), (20, 60))],
     "model": True,
     "level_text": "Theorems over an explicit aliasing model (table memory = mutable array, a returned value = owned copy or view): with reads that copy — the generated fact extracted from table.Get/get on every run — a returned value is unaffected by every later sequence of writes, recycling and freeing of table memory, and poking it changes no table memory; the same statements are refuted for views by closed witnesses. Tied to the code by the alias stream, which keeps the very slices the store hands out, churns/recycles/transfers tables, then re-reads and scribbles on them, and reuses Put buffers.",
     "design_ref": "DESIGN.md §6 C18",
